@@ -170,6 +170,12 @@ def sink_ops(fx, body, sink_params=None, _seen=None):
     if not ids:
         return ops
     for n in F.walk(body["body"]):
+        if n.get("k") == "Adt":
+            # the sink moved into a struct (a wrapper that outlives the call): its later use is not tracked
+            for f_ in n["fields"]:
+                if _is_sink_expr(f_["e"], ids):
+                    ops.append((n, "stored", "%s.%s" % (n["adt"].split("::")[-1], f_["name"])))
+            continue
         if n.get("k") != "Call" or "fn" not in n:
             continue
         f = n["fn"]
